@@ -248,6 +248,9 @@ type world struct {
 	created []string // ids of modes created with a generated id, in order of creation
 	nUpd    atomic.Int64
 	nSet    atomic.Int64
+	// futureStamps: a third of the start times given to SetActiveMode lie after every reading of the model clock
+	// (a schedule entered ahead of time); only used with the manual clock of the sequential part
+	futureStamps bool
 }
 
 func newWorld(clk clock.Clock, seed uint64, clients bool, init ...*traits.ElectricMode) *world {
@@ -307,6 +310,7 @@ func (o outcome) class() string {
 
 // setStampBase is the (disjoint from both fake clocks) range of start times the harness passes to SetActiveMode.
 var setStampBase = time.Date(1999, 1, 1, 0, 0, 0, 0, time.UTC)
+var setStampFuture = time.Date(2045, 1, 1, 0, 0, 0, 0, time.UTC)
 
 func (w *world) exec(o op, id string) (out outcome) {
 	ctx := context.Background()
@@ -373,7 +377,10 @@ func (w *world) exec(o op, id string) (out outcome) {
 		case "set-active":
 			n := w.nSet.Add(1)
 			mode := &traits.ElectricMode{Id: id, Title: "SET"}
-			if n%3 != 0 {
+			switch {
+			case n%3 == 1 && w.futureStamps:
+				mode.StartTime = timestamppb.New(setStampFuture.Add(time.Duration(n) * time.Second))
+			case n%3 != 0:
 				mode.StartTime = timestamppb.New(setStampBase.Add(time.Duration(n) * time.Second))
 			}
 			out.Err = w.m.SetActiveMode(mode)
